@@ -185,6 +185,9 @@ func c04Values(types []*gen.Type) []c04Val {
 				out = append(out, c04Val{kind: "expr-repeat", t: t, src: lit + "*2"})
 			}
 			out = append(out, c04Val{kind: "expr-index", t: t, src: "[" + lit + "][0]"})
+			out = append(out, c04Val{kind: "expr-index", t: t, src: "{k:" + lit + "}[\"k\"]"})
+			out = append(out, c04Val{kind: "expr-index", t: t, src: "{k:" + lit + "}.k"})
+			out = append(out, c04Val{kind: "expr-index", t: t, src: "[[" + lit + "]][0][0]"})
 		}
 		// element, field and loop element of a nested composite variable: like a variable of type t
 		out = append(out, c04Val{kind: "var-elem", t: t, src: "na" + name + "[0]", decl: "na" + name + ":[]" + t.String() + "\n"})
@@ -202,6 +205,23 @@ func c04Values(types []*gen.Type) []c04Val {
 		out = append(out, c04Val{kind: "litvar", t: gen.ArrOf(t), src: "[" + name + "]", decl: name + ":" + t.String() + "\n"})
 		out = append(out, c04Val{kind: "litvar", t: gen.MapOf(t), src: "{k:" + name + "}", decl: name + ":" + t.String() + "\n"})
 	}
+	// variables inferred from bare empty literals are ordinary variables of type []any / {}any;
+	// loop variables over literals of empty literals are variables of the inferred element type
+	tAA, tMA := gen.ArrOf(tAny), gen.MapOf(tAny)
+	out = append(out,
+		c04Val{kind: "var", t: tAA, src: "ie1", decl: "ie1 := []\n", name: "ie1"},
+		c04Val{kind: "var", t: tMA, src: "ie2", decl: "ie2 := {}\n", name: "ie2"},
+		c04Val{kind: "var", t: tAA, src: "ie3", decl: "ie3 := ([])\n", name: "ie3"},
+		c04Val{kind: "var", t: tAA, src: "ie4", decl: "ie4 := []+[]\n", name: "ie4"},
+		c04Val{kind: "litvar", t: gen.ArrOf(tAA), src: "[ie5]", decl: "ie5 := []\n"},
+		c04Val{kind: "litvar", t: gen.MapOf(tMA), src: "{k:ie6}", decl: "ie6 := {}\n"},
+		c04Val{kind: "var-elem", t: tAA, src: "le1", guard: "for le1 := range [[]]"},
+		c04Val{kind: "var-elem", t: tAA, src: "le2", guard: "for le2 := range [[] []]"},
+		c04Val{kind: "var-elem", t: tMA, src: "le3", guard: "for le3 := range [{}]"},
+		c04Val{kind: "var-elem", t: gen.ArrOf(tAA), src: "le4", guard: "for le4 := range [[[]]]"},
+		c04Val{kind: "var-elem", t: tAA, src: "le5", guard: "for le5 := range [[]]+[[]]"},
+		c04Val{kind: "var-elem", t: tAny, src: "le6", guard: "for le6 := range []"},
+	)
 	none := &gen.Type{K: gen.None}
 	for _, e := range []struct {
 		src string
